@@ -348,7 +348,7 @@ def run_case(case, ctx):
             nontriv = "desc" in order or incs != (1, 1) or (e["p"] in ("line_slice", "ord_slice") and (not all(e["has"]) or e.get("step", 1) < 0))
             if nontriv:
                 sigs.append([order, incs, e["p"], e.get("acc"), e.get("has"), e.get("k", e.get("step"))])
-    return {"sigs": sigs, "labels": labels + ["order:%s/%s" % order]}
+    return {"sigs": sigs, "labels": labels + ["order:%s/%s" % order], "evals": len(case["prog"])}
 
 
 def shard_main(ctx):
